@@ -1,6 +1,7 @@
 (* C01/C16 driver: runs the extracted model on textual case descriptions.
    stdin lines:
      reset
+     L <n>                                                   the handle's MPLEX look-back (-1 = all)
      V <align> <rawpad> <alloc0> <clamp> <bofceil>            source variant (0/1 each, from translate/tr_readpath.py)
      raw <id> <ctype 0..9> <spf> <fo> <n> <hex>...          declare RAW leaf data
      def <name> raw <id> | index | phase <in> <shift> | lincom1 <in> <m> <b>
@@ -41,6 +42,7 @@ let ctypes = [| I8; U8; I16; U16; I32; U32; I64; U64; F32; F64 |]
 let cty s = ctypes.(int_of_string s)
 
 let cur = ref (mk_variant false false false false false)
+let lbk = ref (Zneg XH)
 let raws : (int, rawinfo) Hashtbl.t = Hashtbl.create 16
 let fields : (string, field) Hashtbl.t = Hashtbl.create 64
 let dummy = { r_ty = U8; r_spf = Zpos XH; r_fo = Z0; r_data = [] }
@@ -83,7 +85,7 @@ let show_v (v : xval) = match v with XV b -> Printf.sprintf "%Lx" (i64_of_z b) |
 let show_l l = String.concat " " (List.map show_v l)
 let show_tag t = match t with
   | TRawPad -> "rawpad" | TUnaligned -> "unaligned"
-  | TMplexRate -> "mplexrate" | TMplexNeg -> "mplexneg" | TAllocZero -> "alloczero" | TMplexSeek -> "mplexseek"
+  | TMplexRate -> "mplexrate" | TMplexNeg -> "mplexneg" | TAllocZero -> "alloczero" | TMplexSeek -> "mplexseek" | TMplexNested -> "mplexnested"
 let zs v = Int64.to_string (i64_of_z v)
 let rec len_z l = List.length l
 
@@ -94,6 +96,7 @@ let () =
       (try
         match List.filter (fun s -> s <> "") (String.split_on_char ' ' (String.trim line)) with
         | ["reset"] -> Hashtbl.reset raws; Hashtbl.reset fields
+        | ["L"; n] -> lbk := decz n
         | ["V"; a; b; c; d; e] -> cur := mk_variant (a = "1") (b = "1") (c = "1") (d = "1") (e = "1")
         | "raw" :: id :: ct :: spf :: fo :: _ :: vals ->
             Hashtbl.replace raws (int_of_string id)
@@ -101,11 +104,11 @@ let () =
         | "def" :: name :: kind :: args -> define name kind args
         | ["G"; name; rt; s; n] ->
             let f = fld name and rt = cty rt and s = decz s and n = decz n in
-            let m = (match x_impl_read db !cur rt f s n with
+            let m = (match x_impl_read db !cur !lbk rt f s n with
               | None -> "e"
               | Some l -> Printf.sprintf "%d %s" (len_z l) (show_l l)) in
-            let sp = x_spec_window db rt f s n in
-            let tags = x_uncovered db !cur rt f s n in
+            let sp = x_spec_window db !lbk rt f s n in
+            let tags = x_uncovered db !cur !lbk rt f s n in
             Printf.printf "G M %s|S %d %s|T %s\n" m (len_z sp) (show_l sp)
               (String.concat "," (List.sort_uniq compare (List.map show_tag tags)))
         | ["E"; name] ->
